@@ -504,6 +504,9 @@ func (r *Report) Finish() int {
 		r.Cov["engine_errors"] = r.engineErrs
 		r.Cov["exhaustive"] = false
 	}
+	if r.Tier != "replay" && len(r.violations) > 0 {
+		r.confirmViolations()
+	}
 	code := 0
 	var paths []string
 	for i, v := range r.violations {
@@ -584,6 +587,114 @@ func TestCoord(t *testing.T) {
 	os.Exit(code)
 }
 
+// replayJob builds the worker job that re-executes a recorded case (nil: the record is not an executable case, e.g. a
+// summary over many executions).
+func replayJob(prop string, replay json.RawMessage, all, trace bool) (Job, bool) {
+	var rp struct {
+		Cfg    json.RawMessage `json:"cfg"`
+		Supis  []string        `json:"supis"`
+		Ops    json.RawMessage `json:"ops"`
+		Oracle string          `json:"oracle"`
+		Job    json.RawMessage `json:"job"`
+		Kind   string          `json:"kind"`
+	}
+	if json.Unmarshal(replay, &rp) != nil {
+		return Job{}, false
+	}
+	switch {
+	case rp.Ops != nil:
+		orc := rp.Oracle
+		if orc == "" {
+			orc = prop
+		}
+		return Job{Kind: "hist", Args: mustJSON(map[string]any{"cfg": rp.Cfg, "supis": rp.Supis, "ops": rp.Ops, "oracle": orc, "gor": true, "all": all})}, true
+	case rp.Job != nil:
+		kind := rp.Kind
+		if kind == "" {
+			kind = replayKinds[prop]
+		}
+		args := rp.Job
+		if kind == "sched" && trace {
+			var m map[string]any
+			json.Unmarshal(args, &m)
+			m["trace"] = true
+			args = mustJSON(m)
+		}
+		return Job{Kind: kind, Args: args}, true
+	}
+	return Job{}, false
+}
+
+// caseDigest: what a re-execution must reproduce - the rules that fired, whether something blocked forever or the process
+// died, the canonical state / observation (stack traces and addresses inside details are not compared).
+func caseDigest(r JobResult) string {
+	var o struct {
+		Key      string    `json:"key"`
+		Obs      string    `json:"obs"`
+		Finds    []Finding `json:"finds"`
+		Deadlock []string  `json:"deadlock"`
+		Blocked  []string  `json:"blocked"`
+		Engine   string    `json:"engine"`
+	}
+	json.Unmarshal(r.Out, &o)
+	var rules []string
+	for _, f := range o.Finds {
+		rules = append(rules, f.Rule)
+	}
+	sort.Strings(rules)
+	return fmt.Sprint(rules, o.Deadlock != nil, o.Blocked != nil, r.Crash != "", r.Err != "", o.Engine != "", "|", o.Key, "|", o.Obs)
+}
+
+// confirmViolations re-executes the first recorded violations twice each, without search: the same case must behave
+// identically every time. A case whose two re-executions differ is nondeterminism of the harness - an engine error,
+// never a verdict - and is withdrawn.
+func (r *Report) confirmViolations() {
+	const maxConfirm = 6
+	var idx []int
+	var jobs []Job
+	for i, v := range r.violations {
+		if len(idx) >= maxConfirm {
+			break
+		}
+		rb, err := json.Marshal(v.Replay)
+		if err != nil {
+			continue
+		}
+		if j, ok := replayJob(r.Prop, rb, false, false); ok && (j.Kind == "hist" || j.Kind == "sched") {
+			idx = append(idx, i)
+			jobs = append(jobs, j, j)
+		}
+	}
+	if len(jobs) == 0 {
+		return
+	}
+	pool := NewPool(min(len(jobs), 8))
+	pool.Timeout = 10 * time.Minute
+	res := pool.RunAll(jobs)
+	drop := map[int]bool{}
+	confirmed := 0
+	for k, i := range idx {
+		a, b := res[2*k], res[2*k+1]
+		same := caseDigest(a) == caseDigest(b)
+		if !same {
+			drop[i] = true
+			r.engineErrs = append(r.engineErrs, fmt.Sprintf("violation %q withdrawn: two re-executions of the same case differ (%s | %s)", r.violations[i].Rule, oneLine(string(a.Out)+a.Err+a.Crash, 300), oneLine(string(b.Out)+b.Err+b.Crash, 300)))
+			continue
+		}
+		confirmed++
+	}
+	r.Cov["violations_reexecuted_twice_identically"] = confirmed
+	if len(drop) > 0 {
+		var keep []Violation
+		for i, v := range r.violations {
+			if !drop[i] {
+				keep = append(keep, v)
+			}
+		}
+		r.violations = keep
+	}
+}
+
 // replayMain re-executes one recorded violation (or any history / job file of the same shape) without search.
 func replayMain(prop, path string) int {
 	b, err := os.ReadFile(path)
@@ -610,28 +721,9 @@ func replayMain(prop, path string) int {
 		return 2
 	}
 	pool := NewPool(1)
-	var job Job
-	switch {
-	case rec.Replay.Ops != nil:
-		orc := rec.Replay.Oracle
-		if orc == "" {
-			orc = prop
-		}
-		job = Job{Kind: "hist", Args: mustJSON(map[string]any{"cfg": rec.Replay.Cfg, "supis": rec.Replay.Supis, "ops": rec.Replay.Ops, "oracle": orc, "gor": true, "all": os.Getenv("VREPLAY_ALL") != ""})}
-	case rec.Replay.Job != nil:
-		kind := rec.Replay.Kind
-		if kind == "" {
-			kind = replayKinds[prop]
-		}
-		args := rec.Replay.Job
-		if kind == "sched" {
-			var m map[string]any
-			json.Unmarshal(args, &m)
-			m["trace"] = true
-			args = mustJSON(m)
-		}
-		job = Job{Kind: kind, Args: args}
-	default:
+	rb, _ := json.Marshal(rec.Replay)
+	job, ok := replayJob(prop, rb, os.Getenv("VREPLAY_ALL") != "", true)
+	if !ok {
 		fmt.Fprintln(os.Stderr, "replay file has neither ops nor job")
 		return 2
 	}
